@@ -38,6 +38,16 @@ PROPS["C11"] = {
     "explanation": "authz attribute completeness and order independence", "assumptions": [],
 }
 
+PROPS["C10"] = {
+    "modules": ["harness.c10"], "level": "model_checking", "design_ref": "DESIGN.md 2/C10",
+    "level_text": "For each of the 15 service types and 6 node types the real validate_constraints runs on a real service/node element with "
+                  "symbolic interface count, site placement, declared site, property presence bits and interface kinds; accept/reject is compared "
+                  "with an independent predicate over a pinned copy of the constraint tables, and the live tables are compared with the pinned copy.",
+    "level_note": XH_NOTE + " Interfaces/owners handed to the service validator are stand-ins (ownership lookup stubbed); the wiring of "
+                  "Topology.validate to them is covered for a real 2-node slice only. Counts/sites and properties/kinds are varied in separate harnesses.",
+    "explanation": "validation vs pinned constraint tables", "assumptions": ["topology.get_owner_node replaced by a harness-controlled answer in the per-type harnesses"],
+}
+
 NOT_APPLICABLE = {
     "C01": "every value on the GraphML/JSON text path crosses expat/lxml/json C code and temp files, where a symbolic value is "
            "concretised; what remains would be concrete sampling, i.e. a different technique (store-level half is decided under C04/C20)",
